@@ -121,16 +121,37 @@ func c06Atomic(run *common.Run) {
 								// the failing entry is followed by a valid entry for the SAME row and by entries for another row:
 								// nothing of the failed entry may leak into what the later entries store
 								after := []model.Mut{{Kind: model.SetCell, Fam: "f2", Qual: "after", TS: 1000, Val: fmt.Sprint("a", idx)}}
-								st, per, mal := drive.MutateRows(srv.Data, table, []drive.Entry{{Key: "other", Muts: good}, {Key: "row", Muts: list}, {Key: "row", Muts: after}, {Key: "other", Muts: good[:1]}})
-								if !st.OK() || mal != "" || !per[0].OK() || !per[2].OK() || !per[3].OK() {
+								// ... and (every second case) preceded by a valid entry for the same row, so that the failing entry sits
+								// between two successful entries of its own row
+								ents := []drive.Entry{{Key: "other", Muts: good}, {Key: "row", Muts: list}, {Key: "row", Muts: after}, {Key: "other", Muts: good[:1]}}
+								at := 1
+								var before []model.Mut
+								if (idx/4)%2 == 1 {
+									before = []model.Mut{{Kind: model.SetCell, Fam: "f2", Qual: "before", TS: 1000, Val: fmt.Sprint("b", idx)}}
+									ents = append([]drive.Entry{ents[0], {Key: "row", Muts: before}}, ents[1:]...)
+									at = 2
+									desc += " [ok,FAIL,ok same-row entries]"
+								}
+								st, per, mal := drive.MutateRows(srv.Data, table, ents)
+								sibOK := st.OK() && mal == ""
+								for i := range per {
+									if i != at && !per[i].OK() {
+										sibOK = false
+									}
+								}
+								if !sibOK {
 									run.Violation("atomic", idx, fmt.Sprintf("valid sibling entries not acknowledged: %s %v %s | %s", st, per, mal, desc), desc)
 									continue
 								}
 								_, nr := m.Apply("other", good, gen.BaseClock)
 								m.Commit("other", nr)
+								if before != nil {
+									_, nr = m.Apply("row", before, gen.BaseClock)
+									m.Commit("row", nr)
+								}
 								_, nr = m.Apply("row", after, gen.BaseClock)
 								m.Commit("row", nr)
-								failed = !per[1].OK()
+								failed = !per[at].OK()
 							case "CAM-true", "CAM-false":
 								want := rpc == "CAM-true"
 								var pred *model.Filter
